@@ -662,6 +662,28 @@ def _failures(tname, v, tail, memo, path='$'):
             own.append(Fail(f'{where}/second-parse-of-the-same-cell/differs', f'{tname}: at {R.diff(to_value(objb, t, exp), got)}'))
         elif R.rcell_of(lc).repr_hash() != cell.repr_hash() or lc.bits.to01() != cell.bits:
             own.append(Fail(f'{where}/parsing-changed-the-cell', tname))
+        if not own:
+            # the same value behind a PREFIX that the caller has already consumed (3 bits and one reference): a parser that
+            # addresses the slice absolutely instead of reading on from where it stands gets it wrong
+            try:
+                b2 = R.Bld()
+                b2.put('101')
+                b2.ref(SENT[0])
+                R.encode(t, v, b2)
+                pc = lib_from_rcell(b2.cell())
+            except (R.ModelError, IndexError):
+                pc = None
+            if pc is not None:
+                ps = pc.begin_parse()
+                ps.load_bits(3)
+                ps.load_ref()
+                okp, objp = call(_lib_class(tname).deserialize, ps)
+                if not okp:
+                    own.append(Fail(f'{where}/behind-a-consumed-prefix/raises/{exc_sig(objp)}', repr(objp)))
+                elif R.diff(to_value(objp, t, exp), got) is not None:
+                    own.append(Fail(f'{where}/behind-a-consumed-prefix/differs', f'{tname}: at {R.diff(to_value(objp, t, exp), got)}'))
+                elif TYPES[tname][2] and (ps.remaining_bits or ps.remaining_refs):
+                    own.append(Fail(f'{where}/behind-a-consumed-prefix/leftover', f'{ps.remaining_bits} bits / {ps.remaining_refs} refs'))
     out = diff_fails + [f for f in own if f.signature not in {x.signature for x in diff_fails}]
     memo[path] = out
     return out
